@@ -177,14 +177,16 @@ def gen_design(rng, size=None, hier=False):
     for n in driven + nets_free_out:
         pool.setdefault(n[0], n)
     undriven = {}
-    for n in nets_in + floating + nets_free_out:
+    pref = floating + nets_in + nets_free_out if rng.random() < 0.7 else nets_in + floating + nets_free_out
+    for n in pref:
         undriven.setdefault(n[0], n)
     firsts = [pool[k] for k in sorted(pool)]
-    seconds = [undriven[k] for k in sorted(undriven)]
+    seconds = [n for n in floating if n[0] in undriven] if (floating and rng.random() < 0.6) else [undriven[k] for k in sorted(undriven)]
     rng.shuffle(firsts)
-    rng.shuffle(seconds)
+    if seconds and seconds[0] not in floating:
+        rng.shuffle(seconds)
     used_cables = set()
-    for _ in range(rng.choice([0, 0, 0, 1, 1, 2])):
+    for _ in range(rng.choice([0, 0, 0, 0, 0, 0, 1, 1, 1, 2])):
         b = next((x for x in seconds if x[0] not in used_cables), None)
         if b is None:
             break
